@@ -183,24 +183,21 @@ func reportBad(c *core.Ctx, outs []*RunOut, st *ValStats, mine func(why string) 
 		n    int
 	}
 	groups := map[string]*grp{}
-	seenRun := map[string]bool{}
-	for _, b := range st.Bad {
-		o := byID[b.Run]
+	for run, whys := range FirstBad(st) {
+		o := byID[run]
 		if o == nil {
-			return fmt.Errorf("validator reported unknown run %q", b.Run)
+			return fmt.Errorf("validator reported unknown run %q", run)
 		}
-		if seenRun[b.Run] {
-			continue
-		}
-		seenRun[b.Run] = true
-		g := groups[b.Why]
-		if g == nil {
-			g = &grp{}
-			groups[b.Why] = g
-		}
-		g.n++
-		if g.best == nil || scenarioSize(o.Sc) < scenarioSize(g.best.Sc) || (scenarioSize(o.Sc) == scenarioSize(g.best.Sc) && o.Sc.String() < g.best.Sc.String()) {
-			g.best = o
+		for _, why := range whys {
+			g := groups[why]
+			if g == nil {
+				g = &grp{}
+				groups[why] = g
+			}
+			g.n++
+			if g.best == nil || scenarioSize(o.Sc) < scenarioSize(g.best.Sc) || (scenarioSize(o.Sc) == scenarioSize(g.best.Sc) && o.Sc.String() < g.best.Sc.String()) {
+				g.best = o
+			}
 		}
 	}
 	for why, g := range groups {
